@@ -49,11 +49,14 @@ define {
   Item(first, cnt) == <<epoch, first, cnt>>
   \* what storage must have received, given what the camera delivered: a prefix of the expected item sequence
   ExpectedItem(i) == IF AVG <= 1 THEN <<epoch, i - 1, 1>> ELSE <<epoch, AVG * (i - 1), AVG>>
+  Clean == ~aborted /\ ~camFailed /\ ~storFailed
+  \* (the last item may be a partial window: what the final flush found accumulated - after all full windows of a complete
+  \* acquisition, or wherever an abort or a device failure cut the acquisition short; it never covers frames not acquired)
   StorOk == \A i \in 1..Len(stor) :
                \/ stor[i] = ExpectedItem(i)
-               \/ (AVG > 1 /\ i = Len(stor) /\ stor[i][1] = epoch /\ stor[i][2] = AVG * (i - 1) /\ stor[i][3] < AVG /\ i > N \div AVG)
+               \/ (AVG > 1 /\ i = Len(stor) /\ stor[i][1] = epoch /\ stor[i][2] = AVG * (i - 1) /\ stor[i][3] < AVG /\ stor[i][3] >= 1
+                   /\ (i > N \div AVG \/ ~Clean) /\ stor[i][2] + stor[i][3] <= cam)
   Complete == IF AVG <= 1 THEN Len(stor) = N ELSE Len(stor) >= N \div AVG
-  Clean == ~aborted /\ ~camFailed /\ ~storFailed
 }
 
 \* cursor updates trim what every registered reader has consumed (keeps the state space finite)
@@ -219,11 +222,14 @@ FSpace == Len(fq) < K
 Item(first, cnt) == <<epoch, first, cnt>>
 
 ExpectedItem(i) == IF AVG <= 1 THEN <<epoch, i - 1, 1>> ELSE <<epoch, AVG * (i - 1), AVG>>
+Clean == ~aborted /\ ~camFailed /\ ~storFailed
+
+
 StorOk == \A i \in 1..Len(stor) :
              \/ stor[i] = ExpectedItem(i)
-             \/ (AVG > 1 /\ i = Len(stor) /\ stor[i][1] = epoch /\ stor[i][2] = AVG * (i - 1) /\ stor[i][3] < AVG /\ i > N \div AVG)
+             \/ (AVG > 1 /\ i = Len(stor) /\ stor[i][1] = epoch /\ stor[i][2] = AVG * (i - 1) /\ stor[i][3] < AVG /\ stor[i][3] >= 1
+                 /\ (i > N \div AVG \/ ~Clean) /\ stor[i][2] + stor[i][3] <= cam)
 Complete == IF AVG <= 1 THEN Len(stor) = N ELSE Len(stor) >= N \div AVG
-Clean == ~aborted /\ ~camFailed /\ ~storFailed
 
 VARIABLES iframe, got, batch, slice, polls, mslice, monitoring
 
